@@ -16,7 +16,7 @@ import re
 import featlib
 from featlib import Check, walk, render, is_call, rel
 import lafem_rules as L
-from lafem_rules import documented_clone_table, classify, targs, extracted_tables, cross_clone_rules
+from lafem_rules import poly, pmul, pshow, psub, single_atom, poly_verdict, documented_clone_table, classify, targs, extracted_tables, cross_clone_rules
 
 LAFEM = featlib.repo_path("kernel/lafem/")
 FILES = LAFEM + "|" + featlib.repo_path("kernel/util/memory_pool") + "|/verif/tu/c0"
@@ -66,7 +66,8 @@ RULES = {
         "twice; transpose(x) with this == &x): on every path on which r may still alias x (the branch conditions do not imply r != x) a loop "
         "nest must not store r[f] and load x[g] with f != g as polynomials in the loop variables - the element written in one iteration is "
         "read in another one (r[j*rows+i] = x[i*cols+j] overwrites its own source whenever r == x, square or not); such loops must read "
-        "from the temporary copy. Broken -> in-place transposition mirrors one triangle into the other.", 2),
+        "from the temporary copy (decided by enumerating the index sequences for small shapes under r == x: an element stored through r and later "
+        "loaded through x). Broken -> in-place transposition mirrors one triangle into the other.", 1),
     "C02.E2.local-array-index": (
         "conversion code that builds its result in local DenseVector arrays: a subscript `p[v + c]` of such an array (p = V.elements(), V "
         "constructed with extent E) by the variable of a counting loop `for(v = ..; v < B; ++v)` needs E - B - c >= 0 as polynomials over "
@@ -382,7 +383,11 @@ def e1_rules(ck, fam, roles_tab, seen_fail):
             xe = L.unwrap(args["x"])
             xo = L.obj_id(xe.get("obj")) if xe.get("k") == "MCall" and xe.get("obj") is not None else ("this" if xe.get("k") == "MCall" else None)
             rr, rc = role_of(it, args["rows_x"]), role_of(it, args["columns_x"])
-            ok = bool(rr and rc and rr.name == "rows" and rc.name == "columns" and rr.obj == xo and rc.obj == xo and xo is not None)
+            if not (rr and rc and rr.name in DIM_ROLES and rc.name in DIM_ROLES and xo is not None and rr.obj and rc.obj):
+                ob("C02.E1.transpose-kernel", "Transpose::value", True,
+                   "x = %s, rows_x <- %s, columns_x <- %s: roles not derivable" % (render(xe)[:40], render(args["rows_x"])[:30], render(args["columns_x"])[:30]), c.get("l"), trivial=True)
+                continue
+            ok = rr.name == "rows" and rc.name == "columns" and rr.obj == xo and rc.obj == xo
             ob("C02.E1.transpose-kernel", "Transpose::value", ok,
                "x = %s, rows_x <- %r, columns_x <- %r" % (render(xe)[:40], rr, rc), c.get("l"))
 
@@ -390,51 +395,6 @@ def e1_rules(ck, fam, roles_tab, seen_fail):
 # -------------------------------------------------------------------------------------------------
 # E2 (light): extents of the arrays handed to result constructors
 # -------------------------------------------------------------------------------------------------
-
-def poly(it, e, depth=0):
-    """polynomial normal form {monomial(tuple of atoms): coeff} of an integer extent expression"""
-    e = L.unwrap(e)
-    k = e.get("k")
-    if depth > 12:
-        return {(render(e),): 1}
-    if k == "Int":
-        v = int(e["v"])
-        return {(): v} if v else {}
-    if k in ("Construct", "TempObj") and len(e.get("a", [])) == 1:
-        return poly(it, e["a"][0], depth + 1)
-    if k == "Ref" and e.get("dk") == "local" and L.INT_T.match(it.fn.ntype(e)):
-        d = it.localdefs.get(e["d"])
-        if d is not None and not it.reassigned(e["d"]):
-            return poly(it, d, depth + 1)
-    if k == "Ref" and e.get("v") is not None and e.get("dk") in ("tparam", "enum", "smember", "global"):
-        v = int(e["v"])
-        return {(): v} if v else {}
-    if k == "Bin" and e.get("op") in ("+", "-"):
-        a, b = poly(it, e["lhs"], depth + 1), poly(it, e["rhs"], depth + 1)
-        out = dict(a)
-        for m, c in b.items():
-            out[m] = out.get(m, 0) + (c if e["op"] == "+" else -c)
-        return {m: c for m, c in out.items() if c}
-    if k == "Bin" and e.get("op") == "*":
-        a, b = poly(it, e["lhs"], depth + 1), poly(it, e["rhs"], depth + 1)
-        out = {}
-        for m1, c1 in a.items():
-            for m2, c2 in b.items():
-                m = tuple(sorted(m1 + m2))
-                out[m] = out.get(m, 0) + c1 * c2
-        return {m: c for m, c in out.items() if c}
-    return {(L._norm_extent(it, e),): 1}
-
-
-def pmul(p, c):
-    return {m: v * c for m, v in p.items() if v * c}
-
-
-def pshow(p):
-    if not p:
-        return "0"
-    return " + ".join(str(c) if not m else ("%d*" % c if c != 1 else "") + "*".join(m) for m, c in sorted(p.items(), key=lambda kv: (not kv[0], kv[0])))
-
 
 def extent_rules(ck, fam, seen_fail):
     for fn in fam.functions():
@@ -480,7 +440,12 @@ def extent_rules(ck, fam, seen_fail):
                 want = dict(base)
                 want[()] = want.get((), 0) + 1
                 want = {m: c for m, c in want.items() if c}
-                ob("row_ptr", erp == want, "row_ptr_in array allocated with %s entries; %s + 1 = %s" % (pshow(erp), base_txt, pshow(want)))
+                v = poly_verdict(erp, want)
+                det = "row_ptr_in array allocated with %s entries; %s + 1 = %s" % (pshow(erp), base_txt, pshow(want))
+                if v == "unknown":
+                    ob("row_ptr", True, "undecided: " + det + " (quantities of different objects)", trivial=True)
+                else:
+                    ob("row_ptr", v == "eq", det)
             eci, ev = ext_of(args.get("col_ind_in", {})) if "col_ind_in" in args else None, ext_of(args.get("val_in", {})) if "val_in" in args else None
             if eci is None or ev is None:
                 ob("val", True, "col_ind_in/val_in: extents not derivable", trivial=True)
@@ -498,19 +463,32 @@ def extent_rules(ck, fam, seen_fail):
                         m = tuple(sorted(m1 + m2))
                         want[m] = want.get(m, 0) + c1 * c2
                 want = {m: c for m, c in want.items() if c}
-                ob("val", ev == want, "val_in array allocated with %s entries; col_ind_in has %s entries, entries per non-zero %s" % (pshow(ev), pshow(eci), pshow(factor)))
+                v = poly_verdict(ev, want)
+                det = "val_in array allocated with %s entries; col_ind_in has %s entries, entries per non-zero %s" % (pshow(ev), pshow(eci), pshow(factor))
+                if v == "unknown":
+                    ob("val", True, "undecided: " + det + " (quantities of different objects)", trivial=True)
+                else:
+                    ob("val", v == "eq", det)
 
 
 # -------------------------------------------------------------------------------------------------
 # alias safety of the transpose kernel
 # -------------------------------------------------------------------------------------------------
 
+class _NoEval(Exception):
+    pass
+
+
 def alias_kernel_rules(ck, fam, facts, seen_fail):
+    """Arch::Transpose::value_generic under r == x, decided by enumerating the index sequences of its loop nests for a few
+    small shapes (the loop bounds, branch conditions and subscripts are evaluated as integer expressions of rows_x /
+    columns_x / the loop variables; no FEAT3 code is executed): with r == x, a loop nest that stores through r and loads
+    through the const source x is wrong iff some address is stored in one iteration and loaded through x in a later one
+    (the out-of-place semantics it has for r != x would read the original value)."""
     kernels = [f for f in facts.functions if f.qn.endswith("Arch::Transpose::value_generic") and f.body is not None and f.tk in ("inst", "plain", "spec")]
     if not kernels:
         ck.incomplete("C02.alias-safe-transpose", "Arch::Transpose::value_generic is not instantiated in %s" % facts.tu)
         return
-    # alias evidence: call sites of Arch::Transpose::value* passing the same array for r and x
     evidence = []
     for fn in facts.functions:
         if fn.body is None:
@@ -522,114 +500,165 @@ def alias_kernel_rules(ck, fam, facts, seen_fail):
     if not evidence:
         ck.note("C02.alias-safe-transpose: no call site passes the same array for r and x any more; the kernel is not required to be alias safe")
         return
+    SHAPES = [(1, 1), (2, 2), (2, 3), (3, 2), (3, 3), (1, 4), (4, 1)]
     for fn in kernels:
-        it = L.Interp(fam, fn)
-        pr = next((p for p in fn.params if p["n"] == "r"), None)
-        px = next((p for p in fn.params if p["n"] == "x"), None)
-        if pr is None or px is None:
-            ck.incomplete("C02.alias-safe-transpose", "%s: parameters r / x not found" % fn.full)
+        names = [p["n"] for p in fn.params]
+        if names[:2] != ["r", "x"] or len(names) < 4:
+            ck.incomplete("C02.alias-safe-transpose", "%s: parameters (r, x, rows, columns) not found" % fn.full)
             continue
-        dr, dx = pr["d"], px["d"]
+        dr, dx = fn.params[0]["d"], fn.params[1]["d"]
+        key = L.fkey(fn)
+        problems, hazards, nchecked = [], [], 0
+        loop_ids = {}
+        for (R, C) in SHAPES:
+            env = {fn.params[2]["d"]: R, fn.params[3]["d"]: C}
+            written = {}                 # address -> loop ordinal that stored it
+            steps = [0]
 
-        def resolve(c):
-            c = L.unwrap(c)
-            if c.get("k") == "Ref" and c.get("dk") == "local":
-                d = it.localdefs.get(c["d"])
-                if d is not None and not it.reassigned(c["d"]):
-                    return resolve(d)
-            return c
+            def ev(e):
+                e = L.unwrap(e)
+                k = e.get("k")
+                if k == "Int":
+                    return int(e["v"])
+                if k == "Bool":
+                    return bool(e["v"])
+                if k in ("Construct", "TempObj", "Cast") and (len(e.get("a", [])) == 1 or e.get("e") is not None):
+                    return ev(e["a"][0] if e.get("a") else e["e"])
+                if k == "Ref":
+                    if e.get("d") in env:
+                        return env[e["d"]]
+                    raise _NoEval(render(e))
+                if k == "Un" and e.get("op") == "!":
+                    return not ev(e["e"])
+                if k == "Un" and e.get("op") == "-":
+                    return -ev(e["e"])
+                if k == "Bin":
+                    op = e["op"]
+                    if op in ("==", "!="):
+                        ds = {L.unwrap(e["lhs"]).get("d"), L.unwrap(e["rhs"]).get("d")}
+                        if ds == {dr, dx}:
+                            return op == "=="          # r == x holds on the analysed runs
+                    if op == "&&":
+                        return bool(ev(e["lhs"])) and bool(ev(e["rhs"]))
+                    if op == "||":
+                        return bool(ev(e["lhs"])) or bool(ev(e["rhs"]))
+                    a, b = ev(e["lhs"]), ev(e["rhs"])
+                    if op in ("/", "%") and b == 0:
+                        raise _NoEval("division by zero")
+                    return {"+": a + b, "-": a - b, "*": a * b, "/": a // b if op == "/" else 0, "%": a % b if op == "%" else 0,
+                            "==": a == b, "!=": a != b, "<": a < b, "<=": a <= b, ">": a > b, ">=": a >= b}.get(op, None) if op in (
+                        "+", "-", "*", "/", "%", "==", "!=", "<", "<=", ">", ">=") else (_ for _ in ()).throw(_NoEval(op))
+                raise _NoEval(render(e)[:40])
 
-        def rel_of(c):
-            """'eq' / 'ne' if c is r == x / r != x"""
-            c = resolve(c)
-            if c.get("k") == "Bin" and c.get("op") in ("==", "!="):
-                ds = {L.unwrap(c["lhs"]).get("d"), L.unwrap(c["rhs"]).get("d")}
-                if ds == {dr, dx}:
-                    return "eq" if c["op"] == "==" else "ne"
-            return None
+            def accesses(n, loopno):
+                """loads (through x or r) then the store of one assignment statement"""
+                lhs = L.unwrap(n["lhs"])
+                loads = [x for x in walk(n["rhs"]) if x.get("k") == "Index" and L.unwrap(x["b"]).get("d") in (dx, dr)]
+                for l in loads:
+                    a = ev(l["idx"])
+                    if L.unwrap(l["b"]).get("d") == dx and a in written:
+                        hazards.append((R, C, render(l)[:40], a, loopno, written[a]))
+                if lhs.get("k") == "Index" and L.unwrap(lhs["b"]).get("d") == dr:
+                    written[ev(lhs["idx"])] = loopno
+                elif lhs.get("k") == "Index" and L.unwrap(lhs["b"]).get("d") == dx:
+                    raise _NoEval("store through x")
 
-        def implies(c, truth, what):
-            """does (c == truth) imply r (what = 'eq'|'ne') x ?"""
-            c = resolve(c)
-            if c.get("k") == "Un" and c.get("op") == "!":
-                return implies(c["e"], not truth, what)
-            r0 = rel_of(c)
-            if r0 is not None:
-                return (r0 == what) if truth else (r0 != what)
-            if c.get("k") == "Bin" and c.get("op") in ("&&", "||"):
-                a, b = implies(c["lhs"], truth, what), implies(c["rhs"], truth, what)
-                conj = (c["op"] == "&&") == truth      # (A&&B) true, or (A||B) false: both sides known
-                return (a or b) if conj else (a and b)
-            return False
+            def run(n, loopno):
+                if n is None:
+                    return True
+                steps[0] += 1
+                if steps[0] > 20000:
+                    raise _NoEval("too many steps")
+                k = n.get("k")
+                if k == "Block":
+                    for s_ in n.get("s", []):
+                        if not run(s_, loopno):
+                            return False
+                    return True
+                if k == "Null_":
+                    return True
+                if k == "Decl":
+                    for v in n.get("vars", []):
+                        if v.get("init") is not None:
+                            try:
+                                env[v["d"]] = ev(v["init"])
+                            except _NoEval:
+                                env.pop(v["d"], None)        # a pointer / buffer: never part of an index
+                    return True
+                if k == "If":
+                    return run(n["then"], loopno) if ev(n["c"]) else (run(n["else"], loopno) if n.get("else") is not None else True)
+                if k == "For":
+                    ln = loop_ids.setdefault(n.get("i"), len(loop_ids)) if loopno is None else loopno
+                    if n.get("init") is not None:
+                        run(n["init"], ln)
+                    while n.get("c") is None or ev(n["c"]):
+                        if not run(n.get("body"), ln):
+                            return False
+                        if n.get("inc") is not None:
+                            run(n["inc"], ln)
+                    return True
+                if k == "While":
+                    ln = loop_ids.setdefault(n.get("i"), len(loop_ids)) if loopno is None else loopno
+                    while ev(n["c"]):
+                        if not run(n.get("body"), ln):
+                            return False
+                    return True
+                if k == "Return":
+                    return False
+                if k == "Assign":
+                    lhs = L.unwrap(n["lhs"])
+                    if lhs.get("k") == "Ref" and n.get("op") in ("=", "+=", "-="):
+                        v = ev(n["rhs"])
+                        env[lhs["d"]] = v if n["op"] == "=" else env[lhs["d"]] + (v if n["op"] == "+=" else -v)
+                        return True
+                    if n.get("op") != "=" and lhs.get("k") == "Index" and L.unwrap(lhs["b"]).get("d") == dr:
+                        a = ev(lhs["idx"])       # compound store also loads r[a]: that is the element itself
+                    accesses(n, loopno)
+                    return True
+                if k == "Un" and n.get("op") in ("++", "--") and L.unwrap(n["e"]).get("k") == "Ref":
+                    d = L.unwrap(n["e"])["d"]
+                    env[d] = env[d] + (1 if n["op"] == "++" else -1)
+                    return True
+                if is_call(n):
+                    cal = str(n.get("callee", ""))
+                    args = n.get("a") or []
+                    if cal in ("memcpy", "std::memcpy", "memmove", "std::memmove") and len(args) == 3:
+                        dst, src = L.unwrap(args[0]), L.unwrap(args[1])
+                        if src.get("d") == dx and written:
+                            hazards.append((R, C, render(n)[:40], -1, loopno, min(written.values())))
+                        if dst.get("d") in (dr, dx):
+                            raise _NoEval("memcpy into r")
+                        return True
+                    if n.get("k") in ("New", "Delete") or cal in ("operator new[]", "operator delete[]"):
+                        return True
+                    for a in args:
+                        if any(L.unwrap(x).get("d") in (dr, dx) for x in walk(a) if x.get("k") == "Ref"):
+                            raise _NoEval("r / x passed to %s" % (cal or "a call"))
+                    return True
+                if k in ("New", "Delete"):
+                    return True
+                raise _NoEval("statement %s" % render(n)[:50])
 
-        nloop = [0]
-
-        def accesses(loop):
-            stores, loads = [], []
-            lhs_ids = set()
-            for n in walk(loop):
-                if n.get("k") == "Assign":
-                    l = L.unwrap(n["lhs"])
-                    if l.get("k") == "Index" and L.unwrap(l["b"]).get("d") == dr:
-                        stores.append(l)
-                        lhs_ids.add(id(l))
-            for n in walk(loop):
-                if n.get("k") == "Index" and id(n) not in lhs_ids and L.unwrap(n["b"]).get("d") in (dx, dr):
-                    loads.append(n)
-            return stores, loads
-
-        def visit(n, alias):
-            if n is None:
-                return
-            k = n.get("k")
-            if k == "Block":
-                for s_ in n.get("s", []):
-                    visit(s_, alias)
-                return
-            if k == "If":
-                c = n["c"]
-                ta = "yes" if implies(c, True, "eq") else "no" if implies(c, True, "ne") else alias
-                fa = "yes" if implies(c, False, "eq") else "no" if implies(c, False, "ne") else alias
-                if alias == "no":
-                    ta = fa = "no"
-                visit(n.get("then"), ta)
-                visit(n.get("else"), fa)
-                return
-            if k in ("For", "While", "Do", "ForRange"):
-                stores, loads = accesses(n)
-                if not stores:
-                    return
-                i = nloop[0]
-                nloop[0] += 1
-                sub = "loop%d" % i
-                key = L.fkey(fn)
-                if alias == "no":
-                    ck.ob("C02.alias-safe-transpose", "%s/%s" % (key, sub), True,
-                          "loop at line %s is only reached with r != x" % n.get("l"), fn.file, n.get("l"), trivial=True)
-                    return
-                haz = []
-                for s_ in stores:
-                    f = poly(it, s_["idx"])
-                    for l in loads:
-                        g = poly(it, l["idx"])
-                        if f != g:
-                            haz.append((render(s_)[:40], render(l)[:40]))
-                ok = not haz
-                det = ("loop at line %s is reached with r %s x (callers passing the same array: %s): " % (n.get("l"), "==" if alias == "yes" else "possibly ==", "; ".join(evidence[:2]))) + \
-                      ("it loads no element of x/r other than the one it stores" if ok else
-                       "it stores %s and loads %s - with r == x the store destroys an element that another iteration still has to read; the loop must read from the temporary copy" % haz[0])
-                if not ok:
-                    if ("alias", key, sub) in seen_fail:
-                        return
-                    seen_fail.add(("alias", key, sub))
-                ck.ob("C02.alias-safe-transpose", "%s/%s" % (key, sub), ok, det, fn.file, n.get("l"), sample={"function": fn.full, "detail": det})
-                return
-            for key_ in ("then", "else", "body", "s"):
-                c = n.get(key_)
-                if isinstance(c, dict) and "k" in c:
-                    visit(c, alias)
-
-        visit(fn.body, "may")
+            try:
+                run(fn.body, None)
+                nchecked += 1
+            except (_NoEval, KeyError, TypeError) as e:
+                problems.append("shape %dx%d: %s" % (R, C, e))
+        if problems:
+            ck.incomplete("C02.alias-safe-transpose", "%s with r == x: not evaluable (%s)" % (key, "; ".join(problems[:2])))
+            continue
+        ok = not hazards
+        if ok:
+            det = "with r == x (%s) and shapes %s no element is loaded through x after an earlier iteration stored it through r" % (evidence[0], SHAPES)
+        else:
+            R, C, what, a, ln, wl = hazards[0]
+            det = ("with r == x (%s) and a %d x %d matrix the loop nest loads %s (element %s) after an earlier iteration already stored that element through r: "
+                   "the store destroys a value that is still to be read; aliased calls must go through the temporary copy" % (evidence[0], R, C, what, a))
+        if not ok and ("alias", key) in seen_fail:
+            continue
+        if not ok:
+            seen_fail.add(("alias", key))
+        ck.ob("C02.alias-safe-transpose", "%s/aliased-run" % key, ok, det, fn.file, fn.line, sample={"function": fn.full, "detail": det})
 
 
 # -------------------------------------------------------------------------------------------------
@@ -654,20 +683,6 @@ def counting_loops(it):
             continue
         out[v["d"]] = (c["rhs"], 1 if c["op"] == "<=" else 0)
     return out
-
-
-def psub(a, b):
-    out = dict(a)
-    for m, c in b.items():
-        out[m] = out.get(m, 0) - c
-    return {m: c for m, c in out.items() if c}
-
-
-def single_atom(p):
-    ms = [m for m in p if m]
-    if len(ms) == 1 and len(ms[0]) == 1 and p[ms[0]] == 1:
-        return ms[0][0]
-    return None
 
 
 def local_array_rules(ck, fam, seen_fail):
@@ -747,7 +762,12 @@ def local_array_rules(ck, fam, seen_fail):
                     "subscript %s: array extent %s, loop bound %s, offset %+d -> %s" % (render(n)[:50], pshow(E), pshow(B), c, "in range" if k0 >= 0 else "runs %d past the end" % -k0), n.get("l")))
                 continue
             ea, ba = single_atom(E), single_atom(B)
-            if ea is not None and ba is not None and ea != ba:
+            def _recv(a):
+                m_ = re.match(r"^([\w>-]+)\.[\w<>:, ]+\(\)$", a)
+                return m_.group(1) if m_ else None
+            definite = ea is not None and ba is not None and ea != ba and (
+                (_recv(ea) is not None and _recv(ea) == _recv(ba)) or re.match(r"^\w+$", ea) or re.match(r"^\w+$", ba))
+            if definite:
                 results.setdefault(name, []).append((False, False,
                     "subscript %s: the array (%s) has extent %s but is indexed by a loop variable bounded by %s - two different size quantities that nothing in this "
                     "function makes equal: the array is indexed by the wrong kind of index" % (render(n)[:50], vecs[vd][0], pshow(E), pshow(B)), n.get("l")))
@@ -1042,8 +1062,9 @@ def banded_rules(ck, fam, facts, roles_tab, seen_fail):
 # -------------------------------------------------------------------------------------------------
 
 def copy_extent_ok(it, kind):
-    """every content copy into this._<kind> uses the recorded extent of the slot it fills"""
-    bad = []
+    """content copies into this._<kind>: -> (definitely wrong extents, extents of a form the check cannot relate to the slot)"""
+    bad, unknown = [], []
+    otherkind = "indices" if kind == "elements" else "elements"
     for (ds, ss, callee, line) in it.copy_events:
         if ds[0] != "this" or ds[1] != kind:
             continue
@@ -1051,10 +1072,14 @@ def copy_extent_ok(it, kind):
         for n in it.fn.nodes():
             if is_call(n) and n.get("l") == line and n.get("callee") == callee and len(n.get("a", [])) >= 3:
                 ext = L._norm_extent(it, n["a"][2])
-                if not re.match(r"^(this|\w+)\._%s_size\.at\(%s\)$" % (kind, re.escape(ds[2])), ext) and \
-                        not re.match(r"^\w+\.get_%s_size\(\)\.at\(%s\)$" % (kind, re.escape(ds[2])), ext):
-                    bad.append((line, ext))
-    return bad
+                if re.match(r"^(this|\w+)\._%s_size\.at\(%s\)$" % (kind, re.escape(ds[2])), ext) or \
+                        re.match(r"^\w+\.get_%s_size\(\)\.at\(%s\)$" % (kind, re.escape(ds[2])), ext):
+                    continue
+                if re.search(r"_%s_size\b|get_%s_size\b" % (otherkind, otherkind), ext) or re.search(r"_%s_size\.at\((?!%s\))" % (kind, re.escape(ds[2])), ext):
+                    bad.append((line, ext))       # the size vector of the other array kind / of another slot
+                else:
+                    unknown.append((line, ext))
+    return bad, unknown
 
 
 def clone_rules(ck, fam, seen_fail):
@@ -1086,9 +1111,11 @@ def clone_rules(ck, fam, seen_fail):
             got_e = classify(st[("this", "elements")], fl, it, "elements", other)
             for kind, got in (("indices", got_i), ("elements", got_e)):
                 if got == "fresh+copy":
-                    bad = copy_extent_ok(it, kind)
+                    bad, unk = copy_extent_ok(it, kind)
                     if bad:
                         got = "other(copy with extent %s instead of the recorded size of the slot)" % bad[0][1]
+                    elif unk:
+                        got = "unknown(copy with extent %s, which the check cannot relate to the recorded size of the slot)" % unk[0][1]
                 if kind == "indices":
                     got_i = got
                 else:
@@ -1096,6 +1123,9 @@ def clone_rules(ck, fam, seen_fail):
             ok_fail = [o for o in it.obligations if not o[2]]
             ok = (got_i, got_e) == (want_i, want_e) and not ok_fail
             sub = "CloneMode::%s" % mode
+            if not ok and not ok_fail and any(g.startswith("unknown") for g in (got_i, got_e)):
+                ck.incomplete("C02.clone-table", "%s with %s: %s" % (L.fkey(fn), mode, [g for g in (got_i, got_e) if g.startswith("unknown")][0]))
+                continue
             if not ok and ("C02.clone-table", sub) in seen_fail:
                 continue
             if not ok:
@@ -1132,13 +1162,18 @@ def assign_rules(ck, fam, seen_fail):
                 conv = [c for c in it.copy_events if c[0][0] == "this" and c[0][1] == kind]
                 if not conv or any(not c[2].endswith("::convert") for c in conv):
                     got = "other(fresh arrays filled by %s)" % sorted({c[2] for c in conv})
-                elif copy_extent_ok(it, kind):
-                    got = "other(convert with extent %s)" % copy_extent_ok(it, kind)[0][1]
+                elif copy_extent_ok(it, kind)[0]:
+                    got = "other(convert with extent %s)" % copy_extent_ok(it, kind)[0][0][1]
+                elif copy_extent_ok(it, kind)[1]:
+                    got = "unknown(convert with extent %s)" % copy_extent_ok(it, kind)[1][0][1]
             want = "shared" if same[kind] else "fresh+copy"
             sub = "%s:%s" % (kind, "same-type" if same[kind] else "cross-type")
             combos.add((same["elements"], same["indices"]))
             ok = got == want
             key = "Container::assign/%s" % sub
+            if not ok and got.startswith("unknown"):
+                ck.incomplete("C02.convert-sharing", "%s: %s arrays: %s" % (fn.full, kind, got))
+                continue
             if not ok:
                 if ("C02.convert-sharing", key) in seen_fail:
                     continue
@@ -1156,6 +1191,8 @@ def typestate_size_rules(ck, fam, seen_fail):
     size vector has as many entries as its pointer vector, and a re-seated array slot gets the matching extent recorded"""
     summaries = {}
     for fn in fam.functions():
+        if L.is_inlined_helper(fam, fn):
+            continue
         cases = L.interpret_cases(fam, fn, summaries)
         if not any(it.touched or it.unknown for _, it in cases):
             continue
